@@ -114,13 +114,28 @@ def dirty_written(ctx, rr):
 ACCESSORS = ('outlinks', 'inlinks', 'links')
 
 
+def _head_consumer(P, u, expr):
+    """is `expr` (a Name load or an accessor call) used as a list head: argument of a LinkStore call / node(block=...) /
+    stored into a container or tuple?"""
+    par = P.parent.get(id(expr))
+    if isinstance(par, ast.Call) and (expr in par.args or any(k.value is expr for k in par.keywords)):
+        if any(t.cls in ('LinkStore', 'LinkStoreNode') for t in P.targets(par)) or not P.targets(par):
+            return True
+        return True
+    if isinstance(par, (ast.Tuple, ast.List, ast.Set, ast.Dict, ast.keyword, ast.Starred)):
+        return True
+    if isinstance(par, ast.Return) or isinstance(par, ast.Yield):
+        return True
+    return False
+
+
 @rule('R-NULL-HEAD')
 def null_head(ctx, rr):
-    """a link-list head read off a trie node is used only where the matching has-links fact holds (0 is NULL and
-    block 0 of the link store is its header, which parses as a stub)"""
+    """a link-list head read off a trie node is *used* (walked, stored) only where it is known to be non-NULL: under the matching
+    has-links fact at the read, or under a truthiness test of the local that holds it (0 is NULL and block 0 of the link store is
+    its header, which parses as a stub)"""
     P = ctx.P
     n_sites = 0
-    # coverage closure: every syntactic candidate is classified
     for u in P.units:
         if u.name == '__repr__':
             continue
@@ -145,14 +160,32 @@ def null_head(ctx, rr):
             if facts is None:
                 continue       # unreachable code
             hf = head_fact(c)
-            n_sites += 1
-            ok = ('H',) + hf in facts
-            rr.ob(ctx.where(u, c), 'link head `%s` is read only under the matching has-links guard' % ast.unparse(c), ok=ok)
-            if not ok:
-                rr.fail(ctx.finding('R-NULL-HEAD', u, c, 'link head `%s` is read without a dominating has-links guard (%s): for a '
-                                    'page without links the value is 0 and dereferencing block 0 parses the link-store header '
-                                    'as a stub' % (ast.unparse(c), hf[1])))
-    rr.require(n_sites, 12, 'link-head reads')
+            guarded_read = ('H',) + hf in facts
+            par = P.parent.get(id(c))
+            uses = []
+            if isinstance(par, ast.Assign) and len(par.targets) == 1 and isinstance(par.targets[0], ast.Name) and par.value is c:
+                var = par.targets[0].id
+                reach = _reaching_uses(ctx, u, var, par)
+                for x in P.own(u, ast.Name):
+                    if x.id == var and isinstance(x.ctx, ast.Load) and id(x) in reach and _head_consumer(P, u, x):
+                        uses.append((x, var))
+                if not uses:
+                    continue   # only tested / never used as a head
+            else:
+                uses.append((c, None))
+            for x, var in uses:
+                n_sites += 1
+                ok = guarded_read
+                if not ok and var is not None:
+                    f2 = gf.facts_at(x) or set()
+                    ok = ('NN', var) in f2 or any(f[0] == 'T' and f[1] == var for f in f2)
+                rr.ob(ctx.where(u, x), 'link head `%s` is used only where it is known non-NULL' % ast.unparse(c), ok=ok)
+                if not ok:
+                    rr.fail(ctx.finding('R-NULL-HEAD', u, c, 'link head `%s` is read without a dominating has-links guard (%s): for a '
+                                        'page without links the value is 0 and dereferencing block 0 parses the link-store header '
+                                        'as a stub' % (ast.unparse(c), hf[1]),
+                                        stmt='unguarded %s() link head used in %s' % (c.func.attr, u.qual)))
+    rr.require(n_sites, 12, 'link-head uses')
     rr.info['head_reads'] = n_sites
 
 
